@@ -579,7 +579,13 @@ pub fn record(args: &Args) {
 						Ok(Err(e)) => json!({"error": e.to_string()}),
 						Err(p) => json!({"panic": p}),
 					};
-					lines.push(json!({"ev": "text_de", "v": project(&v), "expect": project(&collapse_last(&v)), "back": back, "certs": certs}));
+					// the doubles serde_json's own parser presents for these spellings
+					let presented: Vec<J> = sps.iter().filter_map(|s| {
+						let f: f64 = serde_json::from_str(s).ok()?;
+						let (m, e) = numgen::parts(f);
+						Some(json!({"sp": str_to_cps(s), "m": m.to_string().bytes().map(|b| (b - b'0') as u64).collect::<Vec<_>>(), "e": e}))
+					}).collect();
+					lines.push(json!({"ev": "text_de", "v": project(&v), "expect": project(&collapse_last(&v)), "back": back, "certs": presented}));
 				}
 			}
 		}
